@@ -130,6 +130,9 @@ func (s *Sorter) Reset() {
 }
 
 func (s *Sorter) AddRow(row []string) error {
+	if err := objects.ValidateStrList(row); err != nil {
+		return err
+	}
 	s.size += 4
 	for _, str := range row {
 		s.size += uint64(len(str)) + 2
@@ -197,7 +200,9 @@ func (s *Sorter) SortFile(f io.ReadCloser, pk []string) (err error) {
 		} else if err != nil {
 			return
 		}
-		s.AddRow(row)
+		if err = s.AddRow(row); err != nil {
+			return
+		}
 	}
 	if s.pt != nil {
 		s.pt.Done()
